@@ -197,6 +197,9 @@ func AllowMainBlock()              {}
 func BlockForever()                { select {} }
 func LastDoneCheckSawClosed() bool { return false }
 
+// TimeoutFired: a timer of one second or more delivered on this path (engine only).
+func TimeoutFired() bool { return false }
+
 // SleptSinceLastDoneCheck: the calling thread slept or waited for a timer after its
 // last look at a context's cancellation (engine only; false natively).
 func SleptSinceLastDoneCheck() bool { return false }
